@@ -156,6 +156,17 @@ theorem pop_pairs (st : List PairM) (l : Nat) (hr : repPairs st = true) (hl : l 
       · exact absurd (h2.mpr h) hp
     rw [hl, this]; rfl
 
+theorem pop_index (st : List PairM) (ix : Option Index) (hr : repPairs st = true) (hok : ixOk st ix = true) :
+    ixOk (popLive pairLive st).1
+      (ix.map (fun m => ixPopSlots m (popLive pairLive st).1.length (st.drop (popLive pairLive st).1.length))) = true := by
+  obtain ⟨_, _, k, h3⟩ := popLive_spec pairLive st
+  have hn : st.take k = st.take (st.take k).length := by
+    rcases Nat.le_total k st.length with h | h
+    · simp [Nat.min_eq_left h]
+    · rw [List.take_of_length_le h]; simp
+  rw [h3, hn]
+  simpa using ixOk_pop st ix (st.take k).length hr hok
+
 theorem pop_other (t : Tree) (h1 : t.kind ≠ .arr) (h2 : t.kind ≠ .obj) : t.stepHere .pop = (.err .unsupported, t) := by
   cases t <;> simp [Tree.kind] at h1 h2 <;> rfl
 
@@ -178,9 +189,11 @@ theorem here_pop (n : NodeM) (hr : n.repOk = true) (hn : n.isRaw = false) :
     obtain ⟨l, st, ix, hshape⟩ := skipAll_obj_shape n hkd hn
     rw [hshape] at a1 a2 ⊢
     simp only [NodeM.repOk, Bool.and_eq_true, decide_eq_true_eq] at a2
-    obtain ⟨p1, p2, p3⟩ := pop_pairs st l a2.1 a2.2
+    obtain ⟨⟨a2r, a2l⟩, a2x⟩ := a2
+    obtain ⟨p1, p2, p3⟩ := pop_pairs st l a2r a2l
+    have p4 := pop_index st ix a2r a2x
     rw [← a1]
-    exact ⟨rfl, by simp [NodeM.abs, Tree.stepHere, p1], by simp [NodeM.repOk, p2, p3]⟩
+    exact ⟨rfl, by simp [NodeM.abs, Tree.stepHere, p1], by simp [NodeM.repOk, p2, p3, p4]⟩
   | gone => exact absurd hkd (kind_ne_gone n hr)
   | null => rw [pop_other _ (by rw [← hka, hkd]; simp) (by rw [← hka, hkd]; simp)]; exact ⟨rfl, rfl, hr⟩
   | bool => rw [pop_other _ (by rw [← hka, hkd]; simp) (by rw [← hka, hkd]; simp)]; exact ⟨rfl, rfl, hr⟩
@@ -231,6 +244,7 @@ theorem here_unseti (n : NodeM) (i : Nat) (hr : n.repOk = true) (hn : n.isRaw = 
     rw [hshape] at a1 a2 ⊢
     have a2' := a2
     simp only [NodeM.repOk, Bool.and_eq_true, decide_eq_true_eq] at a2
+    obtain ⟨a2, a2x⟩ := a2
     have hlen : (absPairs st).length = l := by rw [absPairs_length, a2.2]
     rw [← a1]
     by_cases hi : i < l
@@ -239,14 +253,15 @@ theorem here_unseti (n : NodeM) (i : Nat) (hr : n.repOk = true) (hn : n.isRaw = 
       by_cases hlast : i = l - 1
       · rw [if_pos hlast]
         obtain ⟨p1, p2, p3⟩ := pop_pairs st l a2.1 a2.2
-        refine ⟨by simp [NodeM.abs, Tree.stepHere, hlen, hi], ?_, by simp [NodeM.repOk, p2, p3]⟩
+        have p4 := pop_index st ix a2.1 a2x
+        refine ⟨by simp [NodeM.abs, Tree.stepHere, hlen, hi], ?_, by simp [NodeM.repOk, p2, p3, p4]⟩
         simp only [NodeM.abs, Tree.stepHere, hlen, hi, if_true, p1]
         rw [hlast, ← hlen, List.eraseIdx_length_sub_one]
       · rw [if_neg hlast]
         obtain ⟨k1, k2⟩ := absPairs_kill st p x h2 h3
         refine ⟨by simp [NodeM.abs, Tree.stepHere, hlen, hi], ?_, ?_⟩
         · simp only [NodeM.abs, Tree.stepHere, hlen, hi, if_true, k1, h5]
-        · simp only [NodeM.repOk, Bool.and_eq_true, decide_eq_true_eq, k2, a2.2, and_true]
+        · simp only [NodeM.repOk, Bool.and_eq_true, decide_eq_true_eq, k2, a2.2, ixOk_kill st ix p a2x, and_true]
           exact repPairs_set st p deadPair a2.1 (by simp [deadPair, NodeM.live]) (by simp [deadPair])
     · have hn := slotAt_none pairLive l st i a2.2 (by omega)
       simp only [hn]
